@@ -314,6 +314,7 @@ def coverage(results, cal, wall, workers, known_hits, fixed, reported, root, tho
         'calibration': {k: v for k, v in cal.items() if k != 'problems'},
         'variant_execution': 'variants run in-process in per-hash-seed servers; any difference is re-checked with every run in a pristine forked child before it is reported; baselines and dependency scans always run in pristine forked children',
         'differences_seen_only_in_process': sum(1 for r in results if r.get('inproc_only')),
+        'jobs_run_entirely_in_pristine_forked_children': sum(1 for r in results if r.get('fork_mode')),
         'known_findings_matched': known_hits, 'fixed_findings_in_force': [f for f in fixed if 'property=C16' in f],
         'violations_reported': reported,
     }
